@@ -1077,6 +1077,31 @@ func genC04(c *Ctx) {
 
 // ---------------- C06 ----------------
 func genC06(c *Ctx) {
+	defer func() {
+		// many DISTINCT terms (thresholds of maps, counters, fixed arrays); every term must come back exactly once
+		for _, t := range distinctChains([]int{17, 65, 130, 257, 300}) {
+			r, got := c.O(t.render(0, c.rng))
+			if r == unknown {
+				continue
+			}
+			c.count("distinct_term_chains")
+			want := t.leaves()
+			if r != "ok" || len(got) != len(want) {
+				c.fail("ExtractLicenses", t.render(0, c.rng), fmt.Sprintf("%s, %d terms", r, len(got)), fmt.Sprintf("%d distinct terms", len(want)), "every operand of the chain is its own reference name")
+				continue
+			}
+			seen := map[string]bool{}
+			for _, x := range got {
+				seen[x] = true
+			}
+			for _, w := range want {
+				if !seen[w] {
+					c.fail("ExtractLicenses", t.render(0, c.rng), "missing "+w, "every term of the expression", "every operand of the chain is its own reference name")
+					break
+				}
+			}
+		}
+	}()
 	canonOf := func(l string) (string, bool) {
 		r, xs := c.X(l)
 		if r != "ok" || len(xs) != 1 {
